@@ -144,8 +144,8 @@ extern int mpt_graph_set(MPT_STRUCT(graph) *gr, const char *name, MPT_INTERFACE(
 		if ((type = mpt_graph_pointer_typeid()) > 0
 		 && (len = src->_vptr->convert(src, type, &from)) >= 0) {
 			mpt_graph_fini(gr);
-			mpt_graph_init(gr, from);
-			return len <= 0 ? len : 1;
+			mpt_graph_init(gr, len ? from : 0);
+			return len ? 1 : 0;
 		}
 		return MPT_ERROR(BadType);
 	}
